@@ -1,6 +1,45 @@
-(* C09 - placeholder until Model/Alias.v and its proofs land. *)
-From Coq Require Import List.
-From BB Require Import Base.Names.
-Theorem C09_placeholder : forall l, NoDup (uniquify l).
-Proof. exact uniquify_NoDup. Qed.
-Print Assumptions C09_placeholder.
+(* C09 - copies and stored/derived objects are independent of their source.
+   The effect table (alias/table.json -> Model/AliasTable.v) says, for every operation that creates a second
+   object, which of its containers may be shared with the source, and for every public mutator which containers
+   it writes; harness/alias.py checks both against the real objects (id() graph, contents before/after) on every
+   run.  The theorems: for EVERY pair (derive operation) x (mutator) the write set on one side is disjoint from
+   what the observations of the other side read, hence (frame) no sequence of mutations on one side changes any
+   observation of the other.  Partial: aliasing outside the container schema cannot be exhibited by the model. *)
+From Coq Require Import String List Bool.
+From BB Require Import Base.Names Model.Types Model.Blueprint Model.Element Model.AliasTable Model.Alias
+  Proofs.AliasFacts Proofs.BlueprintFacts Proofs.EqFacts.
+Import ListNotations.
+
+Theorem C09_every_pair : forall d m, In d derive_ops -> In m mutators -> pair_ok d m = true.
+Proof. exact independent_pairs. Qed.
+
+Theorem C09_derived_unaffected : forall (V A : Type) name src res shared (tr : list (@event V)) (o : @heap V -> A),
+  In (name, src, res, shared) derive_ops ->
+  Forall respects tr ->
+  Forall (fun e => exists mname ws, In (mname, src, ws) mutators /\ ev_writes e = src_cells ws) tr ->
+  depends_only_on o (res_cells shared (observed res)) ->
+  forall h, o (run_trace tr h) = o h.
+Proof. intros V A. exact (@derived_unaffected V A). Qed.
+
+Theorem C09_source_unaffected : forall (V A : Type) name src res shared (tr : list (@event V)) (o : @heap V -> A),
+  In (name, src, res, shared) derive_ops ->
+  Forall respects tr ->
+  Forall (fun e => exists mname ws, In (mname, res, ws) mutators /\ ev_writes e = res_cells shared ws) tr ->
+  depends_only_on o (src_cells (observed src)) ->
+  forall h, o (run_trace tr h) = o h.
+Proof. intros V A. exact (@source_unaffected V A). Qed.
+
+(* the derived object starts out observably equal to its source: copy() of a reachable blueprint IS that blueprint
+   (names already canonical), and addBluePrint stores exactly that copy *)
+Theorem C09_copy_same : forall b, Inv b -> bp_copy b = b.
+Proof. intros b H. exact (proj1 (copy_eq b H)). Qed.
+
+Theorem C09_stored_blueprint : forall e c b, Inv b -> bp_has_empty_list b = false ->
+  el_add_bp e c b = (el_set e c (mkCh (KBp b) None), None).
+Proof. exact stored_blueprint. Qed.
+
+Print Assumptions C09_every_pair.
+Print Assumptions C09_derived_unaffected.
+Print Assumptions C09_source_unaffected.
+Print Assumptions C09_copy_same.
+Print Assumptions C09_stored_blueprint.
